@@ -4,7 +4,7 @@
    Specification: spec/EventCheckSpec.v ([wf_event] = the property's sentence clause by clause,
    [blames k] = clause k is the first violated one). *)
 From Coq Require Import NArith List.
-From LV Require Import model.EventCheck spec.EventCheckSpec proofs.EventCheckProofs.
+From LV Require Import model.EventCheck spec.EventCheckSpec proofs.EventCheckProofs proofs.EventCheckGeneral.
 Import ListNotations.
 Local Open Scope N_scope.
 
@@ -14,6 +14,21 @@ Theorem C13_validate_ok_iff_wf : forall cur vals e ps,
   typed e ps -> parents_of e ps ->
   (validate cur vals e ps = Ok <-> wf_event cur vals e ps).
 Proof. exact validate_ok_iff_wf. Qed.
+
+(* The same without the caller's contract: on EVERY call with uint32 fields the checkers accept
+   exactly when the lengths agree, the event is well-formed w.r.t. the events passed, and the first
+   event passed is the one named first in the id list (the code's "sanity check"). *)
+Theorem C13_validate_ok_iff_general : forall cur vals e ps,
+  typed e ps ->
+  (validate cur vals e ps = Ok <->
+   length (e_parents e) = length ps /\ wf_event cur vals e ps /\ c_firstid e ps).
+Proof. exact validate_ok_iff_general. Qed.
+
+(* ... and every answer (nil, each error value, the length panic) is pinned on every call: the
+   executable verdict [answer_ok_gen] accepts exactly the model's answer *)
+Theorem C13_answer_ok_gen_unique : forall cur vals e ps r,
+  typed e ps -> (answer_ok_gen cur vals e ps r = true <-> r = validate cur vals e ps).
+Proof. exact answer_ok_gen_unique. Qed.
 
 (* first-error: error k is returned exactly when clause k is violated and all earlier clauses hold *)
 Theorem C13_validate_err_iff_blames : forall cur vals e ps k,
@@ -60,6 +75,11 @@ Proof. vm_compute. reflexivity. Qed.
 Example C13_ex_first : validate 3 [7] {| e_epoch := 3; e_seq := 1; e_frame := 1; e_creator := 7;
                                          e_lamport := 1; e_parents := [] |} [] = Ok.
 Proof. vm_compute. reflexivity. Qed.
+(* a call that breaks the contract in a way the checkers notice: first id names another event *)
+Example C13_ex_firstid : validate 3 [7] {| e_epoch := 3; e_seq := 5; e_frame := 2; e_creator := 7;
+    e_lamport := 13; e_parents := [101; 200] |} [ex_sp; ex_op] = Err WrongSelfParent
+  /\ parents_validate ex_e [ex_sp] = Err PanicLen.
+Proof. vm_compute. split; reflexivity. Qed.
 Definition with_seq s e := {| e_epoch := e_epoch e; e_seq := s; e_frame := e_frame e;
   e_creator := e_creator e; e_lamport := e_lamport e; e_parents := e_parents e |}.
 Definition with_lamport l e := {| e_epoch := e_epoch e; e_seq := e_seq e; e_frame := e_frame e;
@@ -80,6 +100,8 @@ Example C13_ex_errors :
 Proof. vm_compute. repeat split. Qed.
 
 Print Assumptions C13_validate_ok_iff_wf.
+Print Assumptions C13_validate_ok_iff_general.
+Print Assumptions C13_answer_ok_gen_unique.
 Print Assumptions C13_validate_err_iff_blames.
 Print Assumptions C13_answer_ok_unique.
 Print Assumptions C13_basic_ok_iff.
